@@ -103,9 +103,11 @@ def _sh(cmd, cwd=None, timeout=900, env=None):
         return 124, out + '\nTIMEOUT', time.time() - t0
 
 
-def build(timeout: int = 1500) -> tuple[bool, str]:
-    """Full .vo build of the whole development (incremental), serialized by
-    a file lock so that concurrent checks do not race in make."""
+def build(timeout: int = 1500, targets: list[str] | None = None) -> tuple[bool, str]:
+    """Full .vo build (incremental), serialized by a file lock so that
+    concurrent checks do not race in make.  With `targets` (paths relative to
+    coq/, without extension, e.g. 'theories/Props/C18') only those files and
+    everything they depend on are (re)built; setup.sh builds everything."""
     os.makedirs(WORK, exist_ok=True)
     with open(os.path.join(WORK, 'make.lock'), 'w') as lock:
         fcntl.flock(lock, fcntl.LOCK_EX)
@@ -118,10 +120,12 @@ def build(timeout: int = 1500) -> tuple[bool, str]:
             rc, out, _ = _sh('coq_makefile -f _CoqProject -o Makefile', cwd=COQ)
             if rc != 0:
                 return False, out
-        rc, out, _ = _sh(f'timeout {timeout} make -j16 -k 2>&1 | tail -60',
+        tgt = ' '.join(t + '.vo' for t in targets) if targets else ''
+        rc, out, _ = _sh(f'timeout {timeout} make -j16 -k {tgt} 2>&1 | tail -60',
                          cwd=COQ, timeout=timeout + 30)
         # make's own status is hidden by tail: look at the files
-        missing = [f for f in files
+        want = [t + '.v' for t in targets] if targets else files
+        missing = [f for f in want
                    if not os.path.exists(os.path.join(COQ, f[:-2] + '.vo'))
                    or os.path.getmtime(os.path.join(COQ, f[:-2] + '.vo'))
                    < os.path.getmtime(os.path.join(COQ, f))]
